@@ -299,7 +299,10 @@ def finish(ctx, level_text, trusted_base, assumptions, rule, extra=None):
     ev = dict(property_id=ctx.pid, tier=ctx.tier, seed=ctx.seed, level="proof", coverage=cov,
               assumptions=assumptions, wall_s=round(time.time() - ctx.t0, 2), violations=violations)
     os.makedirs(os.path.join(VERIF, "evidence"), exist_ok=True)
-    json.dump(ev, open(os.path.join(VERIF, "evidence", ctx.pid + ".json"), "w"), indent=1, default=str)
+    if ctx.proof.get("cmd") == "skipped":      # --no-proof is a debugging aid: it must not overwrite the evidence of a real run
+        json.dump(ev, open(os.path.join(VERIF, ".work", ctx.pid + ".noproof-evidence.json"), "w"), indent=1, default=str)
+    else:
+        json.dump(ev, open(os.path.join(VERIF, "evidence", ctx.pid + ".json"), "w"), indent=1, default=str)
     return 1 if violations else 0
 
 def check_fingerprints(ctx, fps):
